@@ -656,6 +656,30 @@ class SimulatedBroker(Broker):
         dt : `pd.Timestamp`
             The current timestamp to update the Broker to.
         """
+        # Refuse a timestamp that a portfolio would reject *before* any
+        # position is re-marked or any order is taken off its queue, so
+        # that a refused update leaves holdings and pending orders intact
+        exchange_open = self.exchange.is_open_at_datetime(dt)
+        for portfolio_id, portfolio in self.portfolios.items():
+            positions = portfolio.pos_handler.positions
+            has_fillable_orders = (
+                exchange_open and not self.open_orders[portfolio_id].empty()
+            )
+            if (len(positions) > 0 or has_fillable_orders) and dt < portfolio.current_dt:
+                raise ValueError(
+                    'Update datetime (%s) is earlier than current datetime '
+                    '(%s) of portfolio "%s". Cannot update the broker.' % (
+                        dt, portfolio.current_dt, portfolio_id
+                    )
+                )
+            for asset, position in positions.items():
+                if dt < position.current_dt:
+                    raise ValueError(
+                        'Update datetime (%s) is earlier than current datetime '
+                        '(%s) of the position in "%s". Cannot update the '
+                        'broker.' % (dt, position.current_dt, asset)
+                    )
+
         self.current_dt = dt
 
         # Update portfolio asset values
